@@ -24,6 +24,7 @@ func init() {
 			"(interprocedural may-alias with per-function 'result aliases parameter' summaries): the second append overwrites what the first one added, silently replacing validators in a result list. " +
 			"(S3) a list stored into a shard map is never a two-index window x[a:b] of another list (it would keep that array's capacity: the next append overwrites the validators that follow). " +
 			"The input hashed for a validator in shuffleList is built in that iteration from that validator's PubKey() (no buffer patched across iterations). " +
+			"removeValidatorsFromList leaves its search loop after a removal; the additional-leaving list that reaches shuffleNodes is the result of removeDupplicates. " +
 			"Not decided (value-level): duplicates inside the inputs, slice-bound arithmetic, which keys are honoured as leaving.",
 		Run: runC12,
 	})
